@@ -200,10 +200,19 @@ Theorem C20_reaches_ew : forall (L Op Out : Type) (Lo : lops L Op Out) (s : st L
 Proof. intros L Op Out Lo. exact (reaches_ew Lo). Qed.
 Print Assumptions C20_reaches_ew.
 
+(* :next / :prev (vi: zJ / zK) of an argument that is already open: that buffer is reached, nothing is read, the position in
+   the argument list moves. *)
+Theorem C20_reaches_arg : forall (L Op Out : Type) (Lo : lops L Op Out) (s : st L) (dis : Z) (p : path) (i : nat) (b : buf L),
+  nth_path (args s) (next_pos s) <> None -> nth_path (args s) (next_pos s + dis) = Some p -> p <> [] ->
+  bufs_find s p = Some i -> (1 <= i)%nat -> nth_error (bufs s) i = Some (Some b) -> (xwa s = true \/ dirty_at Lo s 0 = false) ->
+  let s' := fst (ex_next Lo s dis) in slot0 s' = Some b /\ xv s' = b_view b /\ fs s' = fs s /\ next_pos s' = (next_pos s + dis)%Z.
+Proof. intros L Op Out Lo. exact (reaches_arg Lo). Qed.
+Print Assumptions C20_reaches_arg.
+
 (* The summary over whole command lines (ex_command = the command + the closing lbuf_modified): in a well-formed table,
    if command c names the buffer b in slot i >= 1 (BufsReach.names: `b n` -- id n; `b +` / `b -` -- least id above / greatest
    id below the current one; `b #`, `b ^` -- slots 1, 2; `e`/`e!`/`ew`/`ew!` path, `e #`, `e %` -- the first slot whose path is the
-   expanded argument) and the command is not refused (`!`, writeany, or the current buffer is clean), then afterwards b is the
+   expanded argument; `next` / `prev` -- the first slot whose path is the next / previous argument) and the command is not refused (`!`, writeany, or the current buffer is clean), then afterwards b is the
    current buffer (its lbuf only bumped), the globals are its saved view and the file system is untouched (nothing re-read);
    and the named buffer is unique. *)
 Theorem C20_reaches_named : forall (L Op Out : Type) (Lo : lops L Op Out) (s : st L) (c : cmd Op) (i : nat) (b : buf L),
